@@ -348,3 +348,5 @@ func randLetters(r *rand.Rand, n int) string {
 	}
 	return string(b)
 }
+
+func genOptsSmall() gen.PkgOpts { return gen.PkgOpts{MaxMods: 6} }
